@@ -3,13 +3,13 @@
    Implementation side (transcribes the code as written, defects included):
      sql/sqltypes.py  String.literal_processor                 -> [string_replaces], [string_process]
      dialects/mssql/base.py  _UnicodeLiteral.literal_processor -> [string_process] with [unicode_n = true]
-     sql/sqltypes.py  String._resolve_for_python_type          -> [resolve_auto]
+     sql/sqltypes.py  String._resolve_for_literal          -> [resolve_auto]
      sql/sqltypes.py  Integer.literal_processor                -> [render_int]
      sql/sqltypes.py  Boolean.literal_processor                -> [bool_text]
      sql/sqltypes.py  NumericCommon.literal_processor          -> [numeric_process] (+ CPython's
                       decimal.Decimal(str) acceptance grammar  -> [decimal_accepts])
      sql/sqltypes.py  _RenderISO8601NoT, sqlite _DateTimeMixin.literal_processor, oracle
-                      _OracleDateLiteralRender, mssql render_literal_value -> [temporal_*]
+                      _OracleDateLiteralRender                 -> [temporal_*]
      sql/compiler.py  SQLCompiler.render_literal_value (None -> NULL) and the mysql/postgresql
                       overrides (backslash doubling of the processor's output) -> [render_value]
      sql/compiler.py  IdentifierPreparer.__init__ (_double_percents) -> [dp_of_paramstyle]
@@ -104,7 +104,7 @@ Definition default_bs (d : dialect) : bool :=
 Definition default_flags (d : dialect) : flags :=
   mkFlags (dp_of_paramstyle (default_paramstyle d)) (default_bs d).
 
-(* String._resolve_for_python_type: a str without an explicit type is String when ASCII else Unicode;
+(* String._resolve_for_literal: a str without an explicit type is String when ASCII else Unicode;
    the SQL Server dialect renders Unicode/UnicodeText with the N prefix (colspecs -> _MSUnicode) *)
 Inductive strtype := TString | TUnicode | TAuto.
 Definition is_ascii (s : str) : bool := forallb (fun c => c <? 128) s.
